@@ -18,6 +18,9 @@ import (
 	"github.com/wundergraph/graphql-go-tools/v2/pkg/engine/postprocess"
 	"github.com/wundergraph/graphql-go-tools/v2/pkg/engine/resolve"
 
+	"github.com/wundergraph/graphql-go-tools/v2/pkg/operationreport"
+
+	"verif/harness/internal/admit"
 	"verif/harness/internal/fedgen"
 	"verif/harness/internal/opgen"
 	"verif/harness/internal/sim"
@@ -224,4 +227,26 @@ func (g *Gateway) ExecuteKeepLog(op opgen.Op, opts ...engine.ExecutionOptions) *
 	res.Body = wr.String()
 	res.Requests = g.Transport.Requests()
 	return res
+}
+
+// Plan re-derives the post-processed plan of op exactly as Execute does (exported
+// pipeline + the engine's post-processor options).
+func (g *Gateway) Plan(op opgen.Op, extra ...postprocess.ProcessorOption) (plan.Plan, error) {
+	_, req, stage, err := admit.NormalizeRequest(g.Schema, op)
+	if err != nil {
+		return nil, fmt.Errorf("admission fails at %s: %w", stage, err)
+	}
+	pc := *g.Conf.VerifPlannerConfig()
+	planner, err := plan.NewPlanner(pc)
+	if err != nil {
+		return nil, err
+	}
+	var rep operationreport.Report
+	p := planner.Plan(req.Document(), g.Schema.Document(), op.OperationName, &rep)
+	if rep.HasErrors() {
+		return nil, rep
+	}
+	opts := append(append([]postprocess.ProcessorOption{}, g.Engine.VerifPostProcessorOptions()...), extra...)
+	postprocess.NewProcessor(opts...).Process(p)
+	return p, nil
 }
